@@ -27,8 +27,13 @@ MPairs(p) == LET S == Mont(p) \ { <<>> }
                 \cup { <<m, BSub(Two256, m)>> : m \in { x \in S : BLess(BSub(Two256, x), p) } }
                 \cup { <<m, m>> : m \in S }
                 \cup { <<m, BAdd(m, <<1>>)>> : m \in { x \in S : BLess(BAdd(x, <<1>>), p) } }
+\* carry-class families for the interleaved sum of products (C12): Montgomery residues just below p, and small ones
+HiRes(p) == { BSub(p, N(t)) : t \in 1..48 } \cup { BSub(p, Pad(<<>>, k) \o <<1>>) : k \in {1, 2, 4, 8, 16, 24, 30} }
+LoRes(p) == { N(t) : t \in 1..48 } \cup { Pad(<<>>, k) \o <<1>> : k \in {1, 2, 4, 8, 16, 24, 30} }
 Enc32(a) == ToBE(a, 32)
-PoolOf(p) == [ vals |-> SetToSeq({ Enc32(v) : v \in Vals(p) }),
+PoolOf(p) == [ hi |-> SetToSeq({ Enc32(OutOfMont(p, m)) : m \in HiRes(p) }),
+               lo |-> SetToSeq({ Enc32(OutOfMont(p, m)) : m \in LoRes(p) }),
+               vals |-> SetToSeq({ Enc32(v) : v \in Vals(p) }),
                pairs |-> SetToSeq({ << Enc32(OutOfMont(p, pr[1])), Enc32(OutOfMont(p, pr[2])) >> : pr \in MPairs(p) }) ]
 VARIABLE done
 Init == done = FALSE
